@@ -332,7 +332,7 @@ func planOK(s *gen.Stream, f []fkind) bool {
 }
 
 func runC06(c *mon.Ctx) {
-	n := c.Pick(160, 2000)
+	n := c.Pick(160, 12000)
 	for i := int64(0); i < n; i++ {
 		if !c.Mine("streams", i) {
 			continue
@@ -443,7 +443,7 @@ func runC06(c *mon.Ctx) {
 		}
 	}
 	// long streams with bursts up to 15 (needs ≥17 packets on one PID)
-	nl := c.Pick(40, 600)
+	nl := c.Pick(40, 5000)
 	for i := int64(0); i < nl; i++ {
 		if !c.Mine("bursts", i) {
 			continue
@@ -479,7 +479,7 @@ func runC06(c *mon.Ctx) {
 		}
 	}
 	// bounded exhaustive: all fault words of length 7 over 6 letters on a 2-PID micro stream of 7 packets
-	nm := c.Pick(1, 6)
+	nm := c.Pick(1, 24)
 	for mi := int64(0); mi < nm; mi++ {
 		r := c.Rng("micro", mi)
 		s, m := microStream(r)
